@@ -163,8 +163,9 @@ class BaseGrammar(
         grammar = self.__class__(self.name)
         grammar.to_namespaced = copy(self.to_namespaced)
         grammar.from_namespaced = copy(self.from_namespaced)
-        grammar._required_names = copy(self._required_names)
         self._copy(grammar)
+        # The required names shall be bound to the copy and not shared with the original.
+        grammar._required_names = RequiredNames(grammar, self._required_names)
         grammar._defaults.update(self._defaults)
         return grammar
 
